@@ -333,6 +333,67 @@ fn cmd_check(prop: &str, tier: Tier) -> i32 {
     }
 }
 
+/// Determinism self-check (DESIGN §2.6): every (property, world, mode) batch is run twice in separate sets of
+/// child processes (hence different HashMap keys), at 16 workers and at 1 worker, for two seeds, and the
+/// per-run event-log hashes are diffed.
+fn cmd_selftest_determinism(runs: u64) -> i32 {
+    let props = [
+        "C01", "C02", "C03", "C04", "C05", "C06", "C07", "C08", "C11", "C12", "C14", "C15", "C16", "C17", "C18", "C19",
+    ];
+    let mut bad = 0u64;
+    let mut total = 0u64;
+    let mut seen = std::collections::BTreeSet::new();
+    for prop in props {
+        let Some(pl) = plan(prop, Tier::Quick) else { continue };
+        for b in &pl.batches {
+            if prop == "C07" && !(b.world == "W7" || b.mode == "hostile") {
+                // C07 re-runs the other worlds as a monitor only; their determinism is checked under their own property
+                continue;
+            }
+            if !seen.insert((prop.to_string(), b.world, b.mode)) {
+                continue;
+            }
+            let n = if b.mode == "big" { 4 } else { runs };
+            let bb = Batch {
+                world: b.world,
+                mode: b.mode,
+                runs: n,
+            };
+            for seed in [1u64, 7919] {
+                std::env::set_var("VERIF_WORKERS", "16");
+                let a = run_batch(&bb, prop, Tier::Quick, seed, true);
+                std::env::set_var("VERIF_WORKERS", "1");
+                let c = run_batch(&bb, prop, Tier::Quick, seed, true);
+                std::env::set_var("VERIF_WORKERS", "5");
+                let d = run_batch(&bb, prop, Tier::Quick, seed, true);
+                let mut diffs = 0;
+                for (i, h) in &a.hashes {
+                    total += 1;
+                    if c.hashes.get(i) != Some(h) || d.hashes.get(i) != Some(h) {
+                        diffs += 1;
+                        if diffs <= 3 {
+                            println!("  DIFF {prop} {}/{} seed={seed} run={i}: {:016x} vs {:?} vs {:?}", b.world, b.mode, h, c.hashes.get(i), d.hashes.get(i));
+                        }
+                    }
+                }
+                if a.hashes.len() as u64 != n || c.hashes.len() as u64 != n || d.hashes.len() as u64 != n {
+                    println!("  INCOMPLETE {prop} {}/{} seed={seed}: {} / {} / {} of {n} runs", b.world, b.mode, a.hashes.len(), c.hashes.len(), d.hashes.len());
+                    diffs += 1;
+                }
+                println!("determinism {prop} {}/{} seed={seed}: {} runs x 3 process sets (16, 1, 5 workers), {diffs} differences", b.world, b.mode, a.hashes.len());
+                bad += diffs;
+            }
+        }
+    }
+    std::env::remove_var("VERIF_WORKERS");
+    println!("selftest-determinism: {total} run hashes compared across 3 independent process sets each, {bad} differences");
+    if bad == 0 {
+        0
+    } else {
+        2
+    }
+}
+
 fn worker_cmd<W: World>(a: &WorkerArgs) -> i32 {
     worker::<W>(a)
 }
@@ -373,6 +434,7 @@ fn main() {
             };
             with_world!(args[2].as_str(), worker_cmd, &a)
         }
+        Some("selftest-determinism") => cmd_selftest_determinism(args.get(2).and_then(|s| s.parse().ok()).unwrap_or(256)),
         Some("replay") => replay_file(&args[2]),
         Some("minimise") => {
             let text = std::fs::read_to_string(&args[2]).unwrap_or_default();
